@@ -28,7 +28,26 @@ TAG_MAP.update(
      univ.Real.tagSet: RealPayloadDecoder()}
 )
 
+# Character string and useful types are OCTET STRINGs in disguise,
+# constructed encoding is prohibited for them as well
+for tagSet, typeDecoder in list(TAG_MAP.items()):
+    if (isinstance(typeDecoder, decoder.OctetStringPayloadDecoder) and
+            typeDecoder.supportConstructedForm):
+        TAG_MAP[tagSet] = type(
+            typeDecoder.__class__.__name__, (typeDecoder.__class__,),
+            {'supportConstructedForm': False})()
+
 TYPE_MAP = decoder.TYPE_MAP.copy()
+
+# The copy already maps the type IDs of the strict payload decoders above
+# to the lenient ones, make decoding guided by `asn1Spec` as strict as the
+# tag-guided one
+for typeDecoder in TAG_MAP.values():
+    if typeDecoder.protoComponent is not None:
+        typeId = typeDecoder.protoComponent.__class__.typeId
+        if (typeId is not None and
+                getattr(typeDecoder, 'supportConstructedForm', True) is False):
+            TYPE_MAP[typeId] = typeDecoder
 
 # Put in non-ambiguous types for faster codec lookup
 for typeDecoder in TAG_MAP.values():
